@@ -348,7 +348,15 @@ class ContainerCalls:
             if isinstance(o, ListObj):
                 s = I.list_seq(state, v)
                 if s.fixed is not None and len(s.fixed) <= 4:
-                    return I.new_list(state, [self.deepcopy(x, state, node, depth + 1) for x in s.fixed], node, f"deepcopy{depth}")
+                    items = []
+                    for ui, x in enumerate(s.fixed):
+                        # one copy per listed element: the allocation sites below carry the element's position
+                        I.unroll_idx.append(ui)
+                        try:
+                            items.append(self.deepcopy(x, state, node, depth + 1))
+                        finally:
+                            I.unroll_idx.pop()
+                    return I.new_list(state, items, node, f"deepcopy{depth}")
                 acc = I.new_list(state, [], node, f"deepcopy{depth}")
                 holder = {}
 
